@@ -233,9 +233,11 @@ def check(run):
         ctors = [f for f in facts.functions.values() if f.get("cls") == cls and f.get("ctor")]
         sufs = set()
         for cf in ctors:
-            for x in ir.walk(cf["body"]):
-                if x.get("k") == "Str":
-                    sufs.add(x.get("v"))
+            parts = [cf["body"]] + [i_.get("init") for i_ in cf.get("inits", []) or [] if i_.get("member") and i_.get("init") is not None]
+            for part in parts:
+                for x in ir.walk(part):
+                    if x.get("k") == "Str":
+                        sufs.add(x.get("v"))
         ok = sufs == {sp["suffix"]} and bool(ctors)
         run.ob("R14.4", "%s:suffix" % tag, ok, ctors[0] if ctors else None, 0,
                "named outputs carry the %s suffix" % sp["suffix"] if ok else "suffix literals in the constructors: %s (expected %s)" % (sorted(sufs), sp["suffix"]))
